@@ -26,7 +26,7 @@ def explore_plan(tier, frag, idx, astr):
     if frag == 'prop':
         return False, 0, 0
     if tier == 'quick':
-        return (idx % 8 == 0 or (astr.count(':') >= 2 and idx % 2 == 0)), 1, 12
+        return (idx % 8 == 0 or (astr.count(':') >= 2 and idx % 3 == 0)), 1, 10
     if idx % 16 == 0:
         return True, 2, 80
     if idx % 4 == 0 or astr.count(':') >= 2:
@@ -54,6 +54,17 @@ def plan(name, tier):
         fo = [a for i, a in enumerate(fo) if i % 2 == 0 or 'M' in a or 'L' in a or 'I' in a or a.count(':') >= 3]
     out += [('modal', a) for a in mod]
     out += [('fo', a) for a in fo]
+    # forked variants: one premise P becomes (P v E) / (E v P) with a fresh letter, so that the proof forks before the other premises are
+    # used and whatever the rules cache for one side of the fork (predicate nodes, worlds, constants, access) exists beside a sibling
+    multi = [(f, a) for f, a in out if a.count(':') >= 2 and f != 'prop']
+    step = (6 if tier == 'quick' else 2) * (3 if slow else 1)
+    for i, (f, a) in enumerate(multi):
+        if i % step:
+            continue
+        parts = a.split(':')
+        j = 1 + (i // step) % (len(parts) - 1)
+        parts[j] = ('A' + parts[j] + 'e') if (i // step) % 2 == 0 else ('Ae' + parts[j])
+        out.append((f, ':'.join(parts)))
     return out
 
 def _task(task):
@@ -141,8 +152,8 @@ def run(ctx):
         traces_validated_against_impl=execs,
         evaluations=execs, distinct_nontrivial=sum(r['valid_args'] for r in res),
         rule=('arguments: PROP slice + all MODAL and FO (+FO-modal) arguments of the tier for each of the 57 logics; executions: the default '
-              'schedule plus every schedule within the deviation bound (quick: 1 deviation on every eighth argument and on every second argument with >= 2 '
-              'premises, <= 12 executions each; thorough: 2 deviations on every 16th argument (<= 80 executions), 1 deviation on every fourth and on all with >= 2 premises) '
+              'schedule plus every schedule within the deviation bound (quick: 1 deviation on every eighth argument and on every third argument with >= 2 '
+              'premises, <= 10 executions each; thorough: 2 deviations on every 16th argument (<= 80 executions), 1 deviation on every fourth and on all with >= 2 premises) '
               'plus the three non-default option combinations (quick: every eighth argument, thorough: every fourth); states = distinct step histories; non-trivial = arguments with at least one valid verdict, each checked by an exhaustive '
               'reference countermodel search (quick: <= 2 worlds, <= 1 anonymous element; thorough: <= 3 worlds bivalent, <= 2 anonymous)'),
         arguments=sum(r['args'] for r in res), valid_executions=sum(r['valid_execs'] for r in res),
